@@ -19,6 +19,13 @@ func init() { Registry["DEBUG"] = Debug }
 
 func Debug(c *mc.Ctx) {
 	c.NoWrite = true
+	if d := os.Getenv("DEBUG_C16C"); d != "" { // DEBUG_C16C=<depth>: only the concurrent C16 exploration
+		depth := 5
+		fmt.Sscanf(d, "%d", &depth)
+		c16Concurrent(c, depth)
+		fix.Cleanup()
+		return
+	}
 	if d := os.Getenv("DEBUG_IC"); d != "" { // DEBUG_IC="<exploration name>|<depth>|op,op,..." : one C04 exploration with an ad-hoc alphabet
 		f := strings.Split(d, "|")
 		depth := 3
